@@ -332,12 +332,14 @@ class Executor:
         raise ToolLimit('setattr on %r' % (o,))
 
     def setitem(self, st, o, key, v, tgt, fx):
-        if isinstance(o, SDict) and o.sym is not None and isinstance(key, SStr):
+        if isinstance(o, SDict) and o.sym is not None and isinstance(key, SNode):
             keys, vals, nonev = o.sym
             if isinstance(v, SReal):
                 nd = SDict(sym=(z3.Store(keys, key.t, True), z3.Store(vals, key.t, v.t), z3.Store(nonev, key.t, v.isnone)))
             elif isinstance(v, SInt):
                 nd = SDict(sym=(z3.Store(keys, key.t, True), z3.Store(vals, key.t, z3.ToReal(v.t)), z3.Store(nonev, key.t, False)))
+            elif isinstance(v, SNone):
+                nd = SDict(sym=(z3.Store(keys, key.t, True), vals, z3.Store(nonev, key.t, True)))
             else:
                 raise ToolLimit('dict value %r' % (v,))
             # rebinding: dict objects are referenced by name only in the supported code
@@ -671,6 +673,8 @@ class Executor:
             return SReal(self.W.fresh(name, L.R), self.W.fresh(name + '_none', L.B))
         if isinstance(v, SInt):
             return SInt(self.W.fresh(name, L.I))
+        if isinstance(v, SNone) and kind is None:
+            raise ToolLimit('loop-modified variable %s is None at loop entry (declare its type in the loop spec)' % name)
         if isinstance(v, SReal):
             return SReal(self.W.fresh(name, L.R), self.W.fresh(name + '_none', L.B))
         if isinstance(v, SNode):
@@ -682,9 +686,9 @@ class Executor:
         if isinstance(v, SNone):
             return v   # stays None only if never assigned a non-None; conservative: tool limit
         if isinstance(v, SDict) and v.sym is not None:
-            return SDict(sym=(self.W.fresh(name + '_keys', z3.ArraySort(Str, L.B)),
-                              self.W.fresh(name + '_vals', z3.ArraySort(Str, L.R)),
-                              self.W.fresh(name + '_none', z3.ArraySort(Str, L.B))))
+            return SDict(sym=(self.W.fresh(name + '_keys', z3.ArraySort(Node, L.B)),
+                              self.W.fresh(name + '_vals', z3.ArraySort(Node, L.R)),
+                              self.W.fresh(name + '_none', z3.ArraySort(Node, L.B))))
         if isinstance(v, SList):
             f = self.W.fresh_fun(name + '_elem', L.I, Str)
             n = self.W.fresh(name + '_len', L.I)
